@@ -194,6 +194,15 @@ Theorem C05_accepts_exactly_upto_eof :
 Proof. exact accepts_upto_eof. Qed.
 Print Assumptions C05_accepts_exactly_upto_eof.
 
+(* ... and the same for any use of a VerifyReader: once Verify returns nil, the bytes read
+   are exactly what the reader delivered before its first EOF *)
+Theorem C05_verify_reader_upto_eof :
+  forall (H : str -> str -> str) comb fuel evs dg sz ops v out v',
+    vr_run H comb fuel dg ops (new_vr true (mkBase evs None) dg sz) [] = (v, out) ->
+    vr_verify H comb fuel dg v = (None, v') -> upto_eof evs = out.
+Proof. exact verify_reader_upto_eof. Qed.
+Print Assumptions C05_verify_reader_upto_eof.
+
 Theorem C05_trailing_before_eof_rejected :
   forall (H : str -> str -> str) comb fuel evs d,
     (d_sz d < Z.of_nat (length (upto_eof evs)))%Z ->
